@@ -1517,6 +1517,8 @@ class Interp:
         fr['mod'] = saved_mod
         return v
 
+    LIST_MUTATORS = ('pop', 'swap', 'swap_remove', 'drain', 'split_off', 'rotate_left', 'rotate_right', 'fill', 'resize', 'append', 'retain_mut',
+                     'extend_from_slice', 'insert', 'remove', 'clear', 'retain')
     IDENTITY = {'as_ref', 'as_mut', 'as_deref', 'clone', 'cloned', 'copied', 'to_owned', 'iter', 'into_iter', 'iter_mut',
                 'borrow', 'as_str', 'deref', 'by_ref', 'to_vec', 'as_slice', 'collect', 'into', 'as_bytes', 'borrow_mut',
                 'to_token_stream', 'into_token_stream', 'peekable'}
@@ -1602,9 +1604,15 @@ class Interp:
             self.accs[recv[1]]['entries'].append({'cond': self.pathcond(), 'val': v, 'loops': list(self.frame['loops']), 'line': e['line'],
                                                   'fn': self.frame['callee'], 'flat': (v[0] in ('star', 'reorder', 'acc')) if ts else True})
             return ('tuple', [])
-        if m in ('push', 'insert', 'extend', 'push_str', 'remove', 'clear', 'retain', 'update'):
+        if m in ('push', 'insert', 'extend', 'push_str', 'remove', 'clear', 'retain', 'update') or \
+                (m in self.LIST_MUTATORS and recv[0] in ('acc', 'star', 'reorder', 'tuple')):
             args = [self.expr(a, env) for a in e['args']]
             self.effect('mutate', method=m, target=recv, args=args, line=e['line'])
+            if recv[0] in ('acc', 'star', 'reorder') and e['recv']['k'] == 'Path' and len(e['recv']['path']['segs']) == 1 and \
+                    not (m in ('push', 'extend') and recv[0] == 'acc'):
+                # a list that was built by pushes / an iterator chain is altered in place afterwards (remove, retain, pop, clear, insert ..): the
+                # variable no longer denotes the plain sequence - keep the alteration visible to every rule that looks at it
+                env.assign(e['recv']['path']['segs'][0], ('mcall', self.acc_view(recv), m, args))
             return ('mcall', recv, m, args)
         if m in ('sort_by_key', 'dedup_by_key', 'sort', 'sort_by', 'dedup', 'reverse', 'sort_unstable', 'sort_unstable_by_key', 'truncate', 'dedup_by'):
             args = [self.expr(a, env) for a in e['args']]
